@@ -217,6 +217,8 @@ fn report_hang(prop: &dyn Prop, args: &Args, (run, op_index): (u64, usize)) -> !
         ),
         site: "hang".into(),
     };
+    // (the replay file is written without re-executing the schedule: it would hang again)
+    NO_ANSWERS.store(true, Ordering::Relaxed);
     let path = write_replay(args, &sc, &v, sc.ops.len(), false);
     println!("VIOLATION property={} replay={}", prop.id(), path);
     println!("  clause=hang {}", v.detail);
@@ -617,6 +619,22 @@ pub fn write_evidence(
                     .collect(),
             ),
         );
+    // set-valued probes
+    let cs_values = st.marks.iter().filter(|(k, _)| *k == crate::props::c02::MARK_CS_VALUE).count();
+    let pos: Vec<J> = st
+        .marks
+        .iter()
+        .filter(|(k, _)| *k == crate::props::c02::MARK_CORRUPT_POS)
+        .map(|(_, v)| J::str(crate::props::c02::POS_NAMES.get(*v as usize).copied().unwrap_or("?")))
+        .collect();
+    if cs_values > 0 || !pos.is_empty() {
+        coverage.put(
+            "set_valued_probes",
+            J::obj()
+                .set("distinct transmitted checksum values seen in checksum errors (of 256)", J::Int(cs_values as i64))
+                .set("positions of the first corrupted byte, classes hit", J::Arr(pos)),
+        );
+    }
     for (k, v) in extra.items {
         coverage.put(&k, v);
     }
@@ -699,13 +717,36 @@ pub fn cmd_check(args: &Args) -> i32 {
     }
     unlisted.sort_by_key(|f| f.run);
 
-    let (extra, extra_violations) = match prop.id() {
+    // determinism self-check of this very binary against this very tree: the first runs again,
+    // single-threaded and at full width; every per-run event-log hash must agree
+    let det_runs = 1500u64.min(runs);
+    let h1 = crate::selftest::hashes_for(prop.id(), args, det_runs, 1);
+    let hn = crate::selftest::hashes_for(prop.id(), args, det_runs, args.threads.max(2));
+    let diverging = h1.iter().zip(hn.iter()).filter(|(a, b)| a != b).count() + h1.len().abs_diff(hn.len());
+    if diverging > 0 {
+        eprintln!(
+            "check: HARNESS ERROR: {} of {} runs are not deterministic (event-log hash differs between a 1-worker and a {}-worker execution)",
+            diverging,
+            det_runs,
+            args.threads.max(2)
+        );
+        return 2;
+    }
+    let (mut extra, extra_violations) = match prop.id() {
         "C01" => crate::extra::c01_extra(args),
         "C18" => crate::extra::c18_extra(args, prop),
         "C20" => crate::extra::c20_extra(args, prop),
         _ => (EvidenceExtra { items: vec![] }, vec![]),
     };
 
+    extra.items.push((
+        "determinism_selfcheck".into(),
+        J::obj()
+            .set("runs", J::Int(det_runs as i64))
+            .set("executions", J::str(&format!("1 worker and {} workers, same process", args.threads.max(2))))
+            .set("diverging", J::Int(0))
+            .set("note", J::str("hash of the full event log per run (schedule + every input/outcome pair of every build + verdict); the cross-process, cross-profile version is ./check selftest-determinism")),
+    ));
     let mut reported = 0usize;
     let mut lines: Vec<String> = Vec::new();
     // A violation that only shows while other workers run in the same process (state shared
@@ -912,11 +953,37 @@ pub fn supervise(args: &Args, argv: &[String]) -> i32 {
             return 2;
         }
     };
-    let st = match std::process::Command::new(&exe).args(&argv[1..]).env("AISSIM_CHILD", "1").status() {
-        Ok(s) => s,
+    let mut child = match std::process::Command::new(&exe).args(&argv[1..]).env("AISSIM_CHILD", "1").spawn() {
+        Ok(c) => c,
         Err(e) => {
             eprintln!("check: HARNESS ERROR: cannot spawn worker process: {}", e);
             return 2;
+        }
+    };
+    // a batch has its own watchdog; a single replayed schedule has none, so it is bounded here
+    let single = args.replay.is_some() || args.run_index.is_some();
+    let t0 = Instant::now();
+    let st = loop {
+        match child.try_wait() {
+            Ok(Some(st)) => break st,
+            Ok(None) => {
+                if single && t0.elapsed().as_secs() > watchdog::LIMIT_S * 3 {
+                    let _ = child.kill();
+                    let _ = child.wait();
+                    let what = args.replay.clone().unwrap_or_else(|| format!("(seed {} run {})", args.seed, args.run_index.unwrap_or(0)));
+                    println!("VIOLATION property={} replay={}", args.prop, what);
+                    println!(
+                        "  clause=hang executing this schedule did not finish within {} s",
+                        watchdog::LIMIT_S * 3
+                    );
+                    return 1;
+                }
+                std::thread::sleep(std::time::Duration::from_millis(if single { 20 } else { 100 }));
+            }
+            Err(e) => {
+                eprintln!("check: HARNESS ERROR: waiting for the worker process: {}", e);
+                return 2;
+            }
         }
     };
     if let Some(c) = st.code() {
